@@ -230,6 +230,7 @@ Lemma ns_start_stage s id i k : ns_ok s -> NS (handle_start_stage s id i k).
 Proof.
   intros K. unfold NS, handle_start_stage. destruct (get_stage s i) as [st0|] eqn:Hs; [|constructor].
   pose proof (ns_get _ _ _ K Hs) as H0.
+  destruct (parent_not_started s st0); [ns_list|].
   assert (Forall (Forall op_ns)
             (h_commits (if start_stage_late (s_status st0) then ok []
                         else if start_stage_waits (evaluate_readiness (rstage_of st0) (upstream s st0) (s_bypass st0)) (upstream s st0) then ok []
